@@ -272,10 +272,13 @@ package multiplex
 //@   modifies sesh.terminalMsg, sesh.terminalMsgSetter
 
 //@ func (*Session).passiveClose
-//@   requires sesh != nil
+//@   requires sesh != nil && sesh.sb != nil && !held(sesh.streamsM) && locksBelow(sesh.streamsM)
+//@   # C12: the connections are closed only by the caller that won the session-closing CAS, after the streams
+//@   atcall closeAll requires sessionClosedFirst: succeeded("(*Session).closeSession")
+//@   ensures connectionsClosed: ret0 == nil ==> called("(*switchboard).closeAll")
+//@   ensures locks: holdsAsAtEntry()
 //@   modifies *
 //@   preserves Frame.StreamID, Frame.Seq, Frame.Closing, Frame.Payload, Stream.id, Stream.session, Session.sb, SessionConfig.MsgOnWireSizeLimit, Session.maxStreamUnitWrite, Session.streamSendBufferSize, SessionConfig.Unordered, SessionConfig.Valve, SessionConfig.Singleplex, Obfuscator.payloadCipher, switchboard.session, switchboard.valve, heap(B_Slice)
-//@   flag trusted
 
 // Seq is incremented exactly once per encode, on every path (a number may be skipped, never reused).
 //@ func (*Stream).obfuscateAndSend
@@ -317,20 +320,25 @@ package multiplex
 //@ func (recvBuffer).Close
 //@   flag trusted
 //@   modifies *
-//@   preserves Frame.StreamID, Frame.Seq, Frame.Closing, Frame.Payload, Stream.id, Stream.session, Session.sb, SessionConfig.MsgOnWireSizeLimit, Session.maxStreamUnitWrite, Session.streamSendBufferSize, SessionConfig.Unordered, SessionConfig.Valve, SessionConfig.Singleplex, Obfuscator.payloadCipher, switchboard.session, switchboard.valve, heap(B_Slice)
+//@   preserves Frame.StreamID, Frame.Seq, Frame.Closing, Frame.Payload, Stream.id, Stream.session, Session.sb, SessionConfig.MsgOnWireSizeLimit, Session.maxStreamUnitWrite, Session.streamSendBufferSize, SessionConfig.Unordered, SessionConfig.Valve, SessionConfig.Singleplex, Obfuscator.payloadCipher, switchboard.session, switchboard.valve, heap(B_Slice), Session.streams
 //@ func (recvBuffer).Write
 //@   flag trusted
 //@   modifies *
-//@   preserves Frame.StreamID, Frame.Seq, Frame.Closing, Frame.Payload, Stream.id, Stream.session, Session.sb, SessionConfig.MsgOnWireSizeLimit, Session.maxStreamUnitWrite, Session.streamSendBufferSize, SessionConfig.Unordered, SessionConfig.Valve, SessionConfig.Singleplex, Obfuscator.payloadCipher, switchboard.session, switchboard.valve, heap(B_Slice)
+//@   preserves Frame.StreamID, Frame.Seq, Frame.Closing, Frame.Payload, Stream.id, Stream.session, Session.sb, SessionConfig.MsgOnWireSizeLimit, Session.maxStreamUnitWrite, Session.streamSendBufferSize, SessionConfig.Unordered, SessionConfig.Valve, SessionConfig.Singleplex, Obfuscator.payloadCipher, switchboard.session, switchboard.valve, heap(B_Slice), Session.streams
 //@ func (recvBuffer).Read
 //@   flag trusted
 //@   ensures 0 <= n && n <= len(p)
 //@   modifies *
-//@   preserves Frame.StreamID, Frame.Seq, Frame.Closing, Frame.Payload, Stream.id, Stream.session, Session.sb, SessionConfig.MsgOnWireSizeLimit, Session.maxStreamUnitWrite, Session.streamSendBufferSize, SessionConfig.Unordered, SessionConfig.Valve, SessionConfig.Singleplex, Obfuscator.payloadCipher, switchboard.session, switchboard.valve, heap(B_Slice)
+//@   preserves Frame.StreamID, Frame.Seq, Frame.Closing, Frame.Payload, Stream.id, Stream.session, Session.sb, SessionConfig.MsgOnWireSizeLimit, Session.maxStreamUnitWrite, Session.streamSendBufferSize, SessionConfig.Unordered, SessionConfig.Valve, SessionConfig.Singleplex, Obfuscator.payloadCipher, switchboard.session, switchboard.valve, heap(B_Slice), Session.streams
 
 //@ func (*Session).Close
-//@   flag trusted
-//@   requires sesh != nil
+//@   requires sesh != nil && sesh.sb != nil && sesh.sb.session != nil && sesh.sb.valve != nil && cipherOK(&sesh.Obfuscator) && sesh.streamSendBufferSize == sesh.MsgOnWireSizeLimit && sesh.MsgOnWireSizeLimit >= 14 + 256 + 16 && !held(sesh.streamsM) && locksBelow(sesh.streamsM)
+//@   # C12/C03: the closing notice is a session-closing frame with 1..256 padding bytes, sent only by the
+//@   # caller that won the CAS; afterwards every connection is closed
+//@   atcall obfuscate requires closingNotice: f.Closing == closingSession && len(f.Payload) >= 1 && len(f.Payload) <= 256
+//@   atcall send requires afterCloseSession: succeeded("(*Session).closeSession")
+//@   ensures connectionsClosed: ret0 == nil ==> called("(*switchboard).closeAll")
+//@   ensures locks: holdsAsAtEntry()
 //@   modifies *
 //@   preserves Frame.StreamID, Frame.Seq, Frame.Closing, Frame.Payload, Stream.id, Stream.session, Session.sb, SessionConfig.MsgOnWireSizeLimit, Session.maxStreamUnitWrite, Session.streamSendBufferSize, SessionConfig.Unordered, SessionConfig.Valve, SessionConfig.Singleplex, Obfuscator.payloadCipher, switchboard.session, switchboard.valve, heap(B_Slice), heap(F_server.ActiveUser.panel), heap(F_server.ActiveUser.sessions), heap(F_server.ActiveUser.valve), heap(F_server.ActiveUser.bypass), heap(F_server.userPanel.Manager), heap(F_server.userPanel.activeUsers), heap(F_server.userPanel.usageUpdateQueue), heap(MD_Int_Pmultiplex.Session), heap(MV_Int_Pmultiplex.Session), heap(MC)
 
@@ -501,7 +509,7 @@ package multiplex
 // ---------------------------------------------------------------------------------------------
 // Receive path (C11 "dropped without effect, later frames still processed"; C12 teardown on read error)
 // ---------------------------------------------------------------------------------------------
-//@ define SKEEP Frame.StreamID, Stream.id, Stream.session, Session.sb, SessionConfig.MsgOnWireSizeLimit, Session.maxStreamUnitWrite, Session.streamSendBufferSize, SessionConfig.Unordered, SessionConfig.Valve, SessionConfig.Singleplex, Obfuscator.payloadCipher, switchboard.session, switchboard.valve, heap(B_Slice)
+//@ define SKEEP Frame.StreamID, Frame.Seq, Frame.Closing, Frame.Payload, Stream.id, Stream.session, Session.sb, SessionConfig.MsgOnWireSizeLimit, Session.maxStreamUnitWrite, Session.streamSendBufferSize, SessionConfig.Unordered, SessionConfig.Valve, SessionConfig.Singleplex, Obfuscator.payloadCipher, switchboard.session, switchboard.valve, heap(B_Slice)
 //@ func makeStream
 //@   flag trusted
 //@   requires sesh != nil
@@ -645,3 +653,21 @@ package multiplex
 //@   ensures rxBucket: ret0 != nil && ret0.rxtb != nil && uf("tb_capacity", ret0.rxtb) == int(rxRate)
 //@   ensures txBucket: ret0.txtb != nil && uf("tb_capacity", ret0.txtb) == int(txRate)
 //@   ensures counters: ret0.rx != nil && ret0.tx != nil && ret0.rx != ret0.tx && *ret0.rx == 0 && *ret0.tx == 0
+
+// closeSession (C12 teardown): at most one caller wins the CAS; under streamsM every stream that is
+// still open is marked closed, its receive buffer is closed (blocked readers wake, see the pipes'
+// Close contracts) and it is counted out - exactly one decrement per receive buffer closed.
+//@ func (*Session).closeSession
+//@   requires sesh != nil && !held(sesh.streamsM) && locksBelow(sesh.streamsM)
+//@   ensures locks: holdsAsAtEntry()
+//@   modifies *
+//@   preserves $SKEEP
+//@   loop 0 invariant lk: holdsEntryPlus(sesh.streamsM) && sesh != nil && sesh.streams != nil
+//@   loop 0 step countedOutWhenClosed: calls("(*Session).streamCountDecr") - old(calls("(*Session).streamCountDecr")) == calls("(recvBuffer).Close") - old(calls("(recvBuffer).Close"))
+
+// closeAll closes every pooled connection (sync.Map.Range with a callback: assumed)
+//@ func (*switchboard).closeAll
+//@   flag trusted
+//@   requires sb != nil
+//@   modifies *
+//@   preserves $SKEEP, Session.streams
